@@ -139,6 +139,10 @@ def work(args):
                 snap = impl.snapshot(cp)
                 o = g3.Sphere(cp, r, n1, n2)
                 vol, area, phis = sphere_refs(r, n1, n2)
+                # the telescoped closed form proved in Lean (BA.sphere_volume_closed_form) must agree with the band sum
+                closed = n1 / 3 * r ** 3 * math.sin(2 * math.pi / n1) * (1 + math.cos(math.pi / 2 / n2))
+                if abs(closed - vol) > 1e-12 * max(1.0, abs(vol)):
+                    raise RuntimeError('sphere closed form %r differs from band sum %r' % (closed, vol))
                 refs = dict(volume=vol, area=area)
                 allp = [(p.x, p.y, p.z) for p in o.point_set]
                 counts = (len(o.point_set), len(o.segment_set), len(o.convex_polygons))
@@ -203,7 +207,7 @@ def work(args):
 def run(ctx, scale=1):
     ctx.extra['rule'] = ('six builders cycled; centres on the lattice (multiples of 1/4, 1/2, 1), radii in {0.3,...,7.5} (some ×0.97), axis/normal directions: 45% the 26 lattice directions (scaled), 25% within 1e-3..0.2 rad of '
                          '±x/±y/±z (straddling SMALL_ANGLE = 0.1), 30% random; n in 3..24, Sphere n1 in 3..12 and n2 in 2..5; Parallelogram/Parallelepiped over independent lattice edge vectors; non-trivial = every case')
-    ctx.extra['unproved'] = ['closed-form area/volume of Circle/Cylinder/Cone/Sphere (needs trigonometric sums): compared numerically at relative 1e-9 as the property itself specifies']
+    ctx.extra['unproved'] = ['closedness of the Sphere face complex for general n1, n2 (kernel-evaluated table over the whole range of the property instead); all closed forms (areas, volumes), convexity, on-surface and equal-step facts are proved over ℝ and compared numerically with the implementation at relative 1e-9 as the property specifies']
     total = ctx.n(900, 30000) * scale
     recs = []
     for part in core.pmap(work, core.chunks(ctx, total, per=30)):
